@@ -53,6 +53,12 @@ def eval_case(case):
     B = lambda l: [fakenet.j2b(x) for x in l]
     payload = wire.kexinit(B(L[0]), B(L[1]), B(L[3]), B(L[5]), B(L[7]), enc_c=B(L[2]), mac_c=B(L[4]), comp_c=B(L[6]))
     spec = {'kexinit_raw': fakenet.b2j(payload), 'banner': case.get('banner', 'SSH-2.0-OpenSSH_8.9p1 Ubuntu-3')}
+    if case.get('pad') is not None:
+        # any padding length 4..255 that keeps the packet a multiple of 8 is legal (RFC 4253 section 6)
+        base = -(len(payload) + 5) % 8
+        if base < 4:
+            base += 8
+        spec['kexinit_pad'] = min(base + 8 * case['pad'], base + 8 * ((255 - base) // 8))
     if case.get('probes'):
         spec['hostkeys'] = {'ssh-rsa': {'t': 'rsa', 'bits': 2048}, 'rsa-sha2-256': {'t': 'rsa', 'bits': 2048}, 'rsa-sha2-512': {'t': 'rsa', 'bits': 2048}, 'ssh-ed25519': {'t': 'ed25519'},
                             'ssh-rsa-cert-v01@openssh.com': {'t': 'cert', 'kind': 'ssh-rsa-cert-v01@openssh.com', 'bits': 3072, 'ca': {'t': 'rsa', 'bits': 4096}}}
@@ -72,7 +78,7 @@ def eval_case(case):
     asym = L[2] != L[3] or L[4] != L[5]
     cl = ['role:' + role, 'render:' + ' '.join(opts[1:] or ['plain'])]
     feats = {'gss': any(n.startswith('gss-') for n in L[0]), 'unknown': False, 'dup': any(len(set(l)) != len(l) for l in L[:6]), 'empty-elem': any('' in l and len(l) > 1 for l in L[:6]),
-             'empty-list': any(l in ([], ['']) for l in L[:6]), 'non-utf8': any(ord(c) >= 0x80 for n in flat for c in n), 'asym': asym, 'client': role == 'client', 'probes': bool(case.get('probes')), 'long': any(len(n) > 100 for n in flat)}
+             'empty-list': any(l in ([], ['']) for l in L[:6]), 'non-utf8': any(ord(c) >= 0x80 for n in flat for c in n), 'asym': asym, 'client': role == 'client', 'probes': bool(case.get('probes')), 'long': any(len(n) > 100 for n in flat), 'long-list': any(len(l) > 200 for l in L), 'long-padding': (case.get('pad') or 0) > 8}
     dbn = {c: set(gens.db_names(c)) for c in CATS}
     feats['unknown'] = any(n and n not in dbn[c] and not n.startswith('gss-') for c, l in zip(CATS, (L[0], L[1], L[3], L[5])) for n in l)
     cl += [k for k, v in feats.items() if v]
@@ -185,8 +191,19 @@ def strat_kexinit():
         if longname is not None:
             kex = kex + [longname]
         lists = [kex, key, enc2 if asym else enc, enc, mac2 if asym else mac, mac, comp2 if asym else comp, comp]
+        extra = {}
+        if longname is None and len(kex) + len(mac) == 7:
+            extra['pad'] = (len(enc) * 7 + len(key) * 3) % 32          # long (legal) packet padding
+        if longname is None and len(kex) + len(enc) == 9:
+            # a very long name-list: several hundred names in one category
+            which = [0, 1, 3, 5][len(key) % 4]
+            lists[which] = lists[which] + ['n%03d@example.com' % i for i in range(250 + 37 * len(mac))]
+            if which == 3 and not asym:
+                lists[2] = lists[3]
+            if which == 5 and not asym:
+                lists[4] = lists[5]
         # an empty list is advertised as the empty string
-        return {'proto': 2, 'role': role, 'opts': opts, 'probes': probes and role == 'server', 'lists': lists}
+        return dict({'proto': 2, 'role': role, 'opts': opts, 'probes': probes and role == 'server', 'lists': lists}, **extra)
     comp = st.lists(st.sampled_from(['none', 'zlib', 'zlib@openssh.com']), min_size=1, max_size=3, unique=True)
     return st.tuples(gens.namelist('kex'), gens.namelist('key'), gens.namelist('enc'), gens.namelist('mac'), gens.namelist('enc'), gens.namelist('mac'), comp, comp,
                      st.sampled_from([False, False, False, False, True]), st.sampled_from(['server', 'server', 'client']), st.sampled_from(RENDERINGS), st.sampled_from([False, False, True]),
